@@ -66,6 +66,30 @@ const UCI_VOCABULARY: [&str; 22] = [
     "info string debug stop ponderhit",
 ];
 
+/// Private-use character that announces one raw byte (two hex digits follow) in a script line.
+pub const RAW_BYTE_MARK: char = '\u{e000}';
+
+/// The bytes of a script line as they go to the engine: RAW_BYTE_MARK + two hex digits become that byte.
+pub fn raw_bytes(line: &str) -> Vec<u8> {
+    let mut out = Vec::new();
+    let cs: Vec<char> = line.chars().collect();
+    let mut i = 0;
+    while i < cs.len() {
+        if cs[i] == RAW_BYTE_MARK && i + 2 < cs.len() {
+            let h: String = cs[i + 1..i + 3].iter().collect();
+            if let Ok(b) = u8::from_str_radix(&h, 16) {
+                out.push(b);
+                i += 3;
+                continue;
+            }
+        }
+        let mut buf = [0u8; 4];
+        out.extend_from_slice(cs[i].encode_utf8(&mut buf).as_bytes());
+        i += 1;
+    }
+    out
+}
+
 pub fn gen_unknown(s: &mut Src) -> String {
     let fixed = [
         "xboard",
@@ -87,7 +111,33 @@ pub fn gen_unknown(s: &mut Src) -> String {
         "debug maybe",
         "setoption value",
     ];
-    let t = match s.weighted(&[45, 25, 30]) {
+    let t = match s.weighted(&[45, 25, 30, 9]) {
+        3 => {
+            // words containing bytes that are not valid UTF-8 (written as RAW_BYTE_MARK + two hex
+            // digits; `raw_bytes` turns them into the bytes themselves on the way to the engine)
+            let n = 1 + s.below(3);
+            let mut words = Vec::new();
+            for _ in 0..n {
+                let len = 1 + s.below(6);
+                let mut w = String::new();
+                for _ in 0..len {
+                    if s.chance(45) {
+                        let b = *s.pick(&[0x80u8, 0xbf, 0xc0, 0xc3, 0xe2, 0xf0, 0xf8, 0xfe, 0xff, 0x9c]);
+                        w.push(RAW_BYTE_MARK);
+                        w.push_str(&format!("{:02x}", b));
+                    } else {
+                        w.push((b'a' + s.below(26) as u8) as char);
+                    }
+                }
+                words.push(w);
+            }
+            let mut t = words.join(" ");
+            if !t.contains(RAW_BYTE_MARK) {
+                t.push(RAW_BYTE_MARK);
+                t.push_str("ff");
+            }
+            t
+        }
         0 => {
             // a vocabulary line, possibly truncated to a token-prefix
             let line = UCI_VOCABULARY[s.below(UCI_VOCABULARY.len())];
